@@ -1067,6 +1067,24 @@ func (r *runner) replays(n, me int, kind string, perFile int) {
 			{Kind: "Sig", Class: "-"}}, others(b.s)...),
 			Op{Kind: "EnableFinal", Class: "-"}, Op{Kind: "EnableUpdate", Class: "-"}),
 	}
+	// the same (state, actor) offered again after it was validated AND enabled: by then it is the current
+	// state, not a successor (C02: no rollback / replay), whatever was validated before
+	scripts["resubmit-after-enable"] = append(append([]Op{
+		{Kind: "Update", S: a.s, Actor: a.actor, Class: "valid"},
+		{Kind: "AddSig", Idx: peer, Sig: sigA, Class: "valid"},
+		{Kind: "Sig", Class: "-"}}, others(a.s)...),
+		Op{Kind: "EnableUpdate", Class: "-"},
+		Op{Kind: "Update", S: a.s, Actor: a.actor, Class: "resubmitted-enabled"},
+		Op{Kind: "CheckUpdate", S: a.s, Actor: a.actor, Sig: sigA, Idx: peer, Class: "resubmitted-enabled"},
+		Op{Kind: "Update", S: a.s.Clone(), Actor: a.actor, Class: "resubmitted-enabled-clone"})
+	scripts["resubmit-after-checkupdate-enable"] = append(append([]Op{
+		{Kind: "CheckUpdate", S: a.s, Actor: a.actor, Sig: sigA, Idx: peer, Class: "valid"},
+		{Kind: "Update", S: a.s, Actor: a.actor, Class: "valid"},
+		{Kind: "AddSig", Idx: peer, Sig: sigA, Class: "valid"},
+		{Kind: "Sig", Class: "-"}}, others(a.s)...),
+		Op{Kind: "EnableUpdate", Class: "-"},
+		Op{Kind: "CheckUpdate", S: a.s, Actor: a.actor, Sig: sigA, Idx: peer, Class: "resubmitted-enabled"},
+		Op{Kind: "Update", S: a.s, Actor: a.actor, Class: "resubmitted-enabled"})
 	if b2.s != nil {
 		scripts["after-checkupdate-2"] = append(append([]Op{
 			{Kind: "CheckUpdate", S: a.s, Actor: a.actor, Sig: sigA, Idx: peer, Class: "valid"},
